@@ -5,6 +5,7 @@ package main
 // Array.AsString / AsStringCvt / FirstType / Interface.
 
 import (
+	"strconv"
 	"fmt"
 	"math"
 	"strings"
@@ -509,6 +510,29 @@ func (c *Ctx) convJudgeAll(pj *simdjson.ParsedJson, doc []byte, max int) {
 			return v
 		}
 		gotI, gotU, gotF := show(fmt.Sprint(iv), e1), show(fmt.Sprint(uv), e2), show(fmt.Sprintf("%016x", math.Float64bits(fv)), e3)
+		// StringCvt: the decimal text of the position's own value (integers exactly; floats as
+		// the float printer prints them)
+		{
+			it2 := iterAt(pj, p.K)
+			sc, e4 := it2.StringCvt()
+			wantS := ""
+			switch p.Tag {
+			case simdjson.TagInteger:
+				wantS = strconv.FormatInt(iv, 10)
+			case simdjson.TagUint:
+				wantS = strconv.FormatUint(uv, 10)
+			default:
+				if b, err := simdjson.VerifAppendFloat(nil, fv); err == nil {
+					wantS = string(b)
+				} else {
+					wantS = sc
+				}
+			}
+			if e4 != nil || sc != wantS {
+				c.Violate("conversion", "StringCvt of a number position is not the decimal text of the position's own value", "c12-stringcvt-judge",
+					map[string]interface{}{"doc_text": printable(doc), "position": pathStr(p.Path), "tag": string([]byte{byte(p.Tag)}), "got": sc, "want": wantS, "error": fmt.Sprint(e4)})
+			}
+		}
 		c.Ev.Count("conv-judge", []byte(fmt.Sprint(p.K)+string(doc)), true)
 		if gotI != wantI || gotU != wantU || gotF != wantF {
 			c.Violate("conversion", "Int/Uint/Float of a number position: wrong range decision or value (judged by exact arithmetic on the position's own value)", "c12-conv-judge",
